@@ -5,13 +5,16 @@ use super::ed::Aff;
 use super::fp::{d, p, Fp};
 
 pub fn sqrt_m1() -> Fp {
-    Fp::from_dec("19681161376707505956807079304988542015446066515923890162744021073123829784752")
+    static C: std::sync::OnceLock<Fp> = std::sync::OnceLock::new();
+    *C.get_or_init(|| Fp::from_dec("19681161376707505956807079304988542015446066515923890162744021073123829784752"))
 }
 pub fn sqrt_ad_minus_one() -> Fp {
-    Fp::from_dec("25063068953384623474111414158702152701244531502492656460079210482610430750235")
+    static C: std::sync::OnceLock<Fp> = std::sync::OnceLock::new();
+    *C.get_or_init(|| Fp::from_dec("25063068953384623474111414158702152701244531502492656460079210482610430750235"))
 }
 pub fn invsqrt_a_minus_d() -> Fp {
-    Fp::from_dec("54469307008909316920995813868745141605393597292927456921205312896311721017578")
+    static C: std::sync::OnceLock<Fp> = std::sync::OnceLock::new();
+    *C.get_or_init(|| Fp::from_dec("54469307008909316920995813868745141605393597292927456921205312896311721017578"))
 }
 pub fn one_minus_d_sq() -> Fp {
     Fp::ONE.sub(&d().sq())
